@@ -41,6 +41,9 @@ def main(argv=None):
             print("VIOLATION property=%s replay=%s" % (pid, a.replay))
             print("  " + str(v).replace("\n", "\n  "))
             return 1
+        # backstop for a shard that never ends (a loop in the library that does not terminate): long enough never to fire on a
+        # loaded machine (quick shards take seconds to a minute), short enough to end the check with a harness error
+        os.environ.setdefault("VERIF_SHARD_TIMEOUT", "1500" if a.tier == "quick" else "14400")
         ctx = core.Ctx(pid, a.tier, seed, level=getattr(mod, "LEVEL", "exploration"))
         mod.run(ctx)
         core.replay_regressions(ctx, mod.replay)
